@@ -166,6 +166,90 @@ pub open spec fn keyset_rm_post<K: Ord, V: Val<A>, A: Ord + Hash>(old_: Map<K, V
     &&& (!vle(clock@, old_.cl()) ==> new_.defs().contains_key(clock) && new_.defs()[clock]@ == old_.dm(clock).union(ks))
 }
 
+//@extract enum src/map.rs CmRDTValidation
+pub enum CmRDTValidation<V: CmRDT, A> {
+    SourceOrder(crate::DotRange<A>),
+
+    Value(V::Validation),
+}
+//@end
+
+/// exact effect of Map::apply (C05)
+pub open spec fn apply_post_map<K: Ord, V: Val<A>, A: Ord + Hash>(old_: Map<K, V, A>, op: Op<K, V, A>, new_: Map<K, V, A>) -> bool {
+    // --- Rm: the key-remove semantics
+    &&& op is Rm ==> keyset_rm_post(old_, op->keyset@, op->clock, new_)
+    // --- Up already seen (duplicate / stale): nothing changes
+    &&& ((op is Up && cnt(old_.cl(), op->dot.actor) >= op->dot.counter) ==> new_ == old_)
+    // --- new Up: the key's entry and the map clock learn the dot, the nested op is applied to the value under the key
+    //     (a fresh default value if the key was absent), then pending key-removes are re-applied
+    &&& (op is Up && cnt(old_.cl(), op->dot.actor) < op->dot.counter) ==> {
+            let d = op->dot;
+            let key = op->key;
+            &&& new_.cl() == old_.cl().insert(d.actor, d.counter)
+            &&& forall|k: K, a: A| #![trigger cnt(new_.ec(k), a)] cnt(new_.ec(k), a) == ({
+                    let e = if k == key { vapp(old_.ec(k), d.actor, d.counter) } else { old_.ec(k) };
+                    if kcovered_by(old_.defs(), k, a, cnt(e, a)) { 0 } else { cnt(e, a) } })
+            &&& forall|k: K| #[trigger] new_.has(k) == ((old_.has(k) || k == key) && new_.ec(k) != SMap::<A, u64>::empty())
+            &&& forall|k: K| k != key && !named_by(old_.defs(), k) && #[trigger] new_.has(k) ==> new_.val(k) == old_.val(k)
+            &&& (!named_by(old_.defs(), key) && new_.has(key) ==> exists|v0: V| (if old_.has(key) { v0 == old_.val(key) } else { V::default.ensures((), v0) }) && #[trigger] V::cm_post(&v0, &op->op, &new_.val(key)))
+            &&& forall|c: VClock<A>| #![trigger new_.defs().contains_key(c)] new_.defs().contains_key(c) <==> (old_.defs().contains_key(c) && !vle(c@, new_.cl()))
+            &&& forall|c: VClock<A>| #![trigger new_.defs()[c]] new_.defs().contains_key(c) ==> new_.defs()[c]@ == old_.defs()[c]@
+        }
+}
+
+impl<K: Ord, V: Val<A>, A: Ord + Hash + Clone> CmRDT for Map<K, V, A> {
+    type Op = Op<K, V, A>;
+    type Validation = CmRDTValidation<V, A>;
+    open spec fn cm_inv(&self) -> bool { mbase_ok::<K, V, A>() && self.wf() }
+    open spec fn cm_pre(&self, op: &Op<K, V, A>) -> bool {
+        &&& clone_ok::<A>()
+        &&& op is Rm ==> nz(op->clock@)
+        &&& op is Up ==> forall|v: V| #[trigger] v.cm_inv() ==> v.cm_pre(&op->op)
+    }
+    open spec fn cm_post(old_: &Self, op: &Op<K, V, A>, new_: &Self) -> bool { apply_post_map(*old_, *op, *new_) }
+
+    // validate_op: `.map_err(Ctor)?` chains -- see below
+    #[verifier::external_body]
+    fn validate_op(&self, op: &Self::Op) -> Result<(), Self::Validation> { unimplemented!() }
+
+//@extract fn src/map.rs "CmRDT for Map" apply
+    fn apply(&mut self, op: Self::Op)
+    //@ ensures apply_post_map(*old(self), op, *final(self)),
+    {
+        match op {
+            Op::Rm { clock, keyset } => self.apply_keyset_rm(keyset, clock),
+            Op::Up { dot, key, op } => {
+                if self.clock.get(&dot.actor) >= dot.counter {
+                    // we've seen this op already
+                    return;
+                }
+                //@ let ghost gkey = key;
+                //@ let ghost gop = op;
+                //@ let ghost pre = *self;
+                //@ proof { pre.lemma_wf(); }
+
+                let entry = /*@ shim_btreemap_entry_or_default(&mut @*/ self.entries /*@<*/ .entry( /*@>*/ /*@ , @*/ key) /*@<*/ .or_default() /*@>*/ ;
+                //@ let ghost e0 = *entry;
+                //@ proof { if pre.entries@.contains_key(gkey) { assert(e0 == pre.entries@[gkey]); assert(nz(pre.entries@[gkey].clock@) && pre.entries@[gkey].val.cm_inv()); } else { assert(Entry::<V, A>::default.ensures((), e0)); assert(e0.ck() == SMap::<A, u64>::empty()); assert(V::default.ensures((), e0.vl())); } assert(e0.val.cm_inv()); assert(nz(e0.clock@)); }
+
+                //@ let dc = dot.clone();
+                //@ proof { assert(cloned(dot.actor, dc.actor)); assert(dc.actor == dot.actor); }
+                entry.clock.apply( /*@<*/ dot.clone() /*@>*/ /*@ dc @*/ );
+                entry.val.apply(op);
+                //@ let ghost e1 = *entry;
+
+                //@ proof { assert(self.clock.cm_inv()); }
+                self.clock.apply(dot);
+                //@ let ghost mid = *self;
+                //@ proof { lemma_up_mid(pre, mid, gkey, e0, e1, dot.actor, dot.counter); }
+                self.apply_deferred();
+                //@ proof { lemma_up_fin(pre, mid, *self, gkey, gop, e0, dot.actor, dot.counter); }
+            }
+        }
+    }
+//@end
+}
+
 impl<K: Ord, V: Val<A>, A: Ord + Hash + Clone> Map<K, V, A> {
 //@extract fn src/map.rs "Map" new
     pub fn new() -> /*@ (r: @*/ Self /*@ ) @*/
@@ -358,6 +442,72 @@ proof fn lemma_krm_done<K: Ord, V: Val<A>, A: Ord + Hash>(old_: Map<K, V, A>, ne
     assert forall|k: K| ks.contains(k) && #[trigger] new_.has(k) implies V::rr_post(&old_.val(k), &clock, &new_.val(k)) by {
         assert(krm_one(old_.entries@, new_.entries@, k, clock));
     }
+}
+
+proof fn lemma_up_mid<K: Ord, V: Val<A>, A: Ord + Hash>(pre: Map<K, V, A>, mid: Map<K, V, A>, key: K, e0: Entry<V, A>, e1: Entry<V, A>, a: A, n: u64)
+    requires
+        pre.wf(), n > cnt(pre.clock@, a), mid.clock@ == pre.clock@.insert(a, n), mid.deferred@ == pre.deferred@,
+        mid.entries@ == pre.entries@.insert(key, e1),
+        pre.entries@.contains_key(key) ==> e0 == pre.entries@[key],
+        !pre.entries@.contains_key(key) ==> e0.clock@ == SMap::<A, u64>::empty(),
+        e1.clock@ == vapp(e0.clock@, a, n), e1.val.cm_inv(), nz(e0.clock@),
+    ensures
+        mid.wf(),
+        mid.ec(key) == vapp(pre.ec(key), a, n), mid.has(key),
+        forall|k: K| k != key ==> #[trigger] mid.ec(k) == pre.ec(k),
+        forall|k: K| k != key ==> #[trigger] mid.has(k) == pre.has(k),
+        forall|k: K| k != key && #[trigger] mid.has(k) ==> mid.val(k) == pre.val(k),
+{
+    assert forall|k: K| mid.entries@.contains_key(k) implies nz(#[trigger] mid.entries@[k].clock@) && mid.entries@[k].clock@ != SMap::<A, u64>::empty() && mid.entries@[k].val.cm_inv() by {
+        if k == key {
+            let c1 = vapp(e0.clock@, a, n);
+            assert forall|b: A| c1.contains_key(b) implies #[trigger] c1[b] > 0 by { if b != a { assert(e0.clock@.contains_key(b)); } }
+            if cnt(e0.clock@, a) < n { assert(c1.contains_key(a)); } else { assert(e0.clock@.contains_key(a)); }
+        } else { assert(pre.entries@.contains_key(k)); }
+    }
+    assert forall|b: A| mid.clock@.contains_key(b) implies #[trigger] mid.clock@[b] > 0 by { if b != a { assert(pre.clock@.contains_key(b)); } }
+}
+
+proof fn lemma_up_fin<K: Ord, V: Val<A>, A: Ord + Hash>(pre: Map<K, V, A>, mid: Map<K, V, A>, fin: Map<K, V, A>, key: K, op: V::Op, e0: Entry<V, A>, a: A, n: u64)
+    requires
+        n > cnt(pre.cl(), a), mid.cl() == pre.cl().insert(a, n), mid.defs() == pre.defs(),
+        mid.ec(key) == vapp(pre.ec(key), a, n), mid.has(key),
+        forall|k: K| k != key ==> #[trigger] mid.ec(k) == pre.ec(k),
+        forall|k: K| k != key ==> #[trigger] mid.has(k) == pre.has(k),
+        forall|k: K| k != key && #[trigger] mid.has(k) ==> mid.val(k) == pre.val(k),
+        pre.has(key) ==> e0.vl() == pre.val(key),
+        !pre.has(key) ==> V::default.ensures((), e0.vl()),
+        V::cm_post(&e0.vl(), &op, &mid.val(key)),
+        deferred_post(mid, fin),
+    ensures
+        apply_post_map(pre, Op::Up { dot: Dot { actor: a, counter: n }, key, op }, fin),
+{
+    let d = Dot { actor: a, counter: n };
+    assert forall|k: K, b: A| #![trigger cnt(fin.ec(k), b)] cnt(fin.ec(k), b) == ({
+            let e = if k == key { vapp(pre.ec(k), d.actor, d.counter) } else { pre.ec(k) };
+            if kcovered_by(pre.defs(), k, b, cnt(e, b)) { 0 } else { cnt(e, b) } }) by {
+        assert(cnt(fin.ec(k), b) == (if kcovered_by(mid.defs(), k, b, cnt(mid.ec(k), b)) { 0 } else { cnt(mid.ec(k), b) }));
+    }
+    assert forall|k: K| #[trigger] fin.has(k) == ((pre.has(k) || k == key) && fin.ec(k) != SMap::<A, u64>::empty()) by {
+        assert(fin.has(k) == (mid.has(k) && fin.ec(k) != SMap::<A, u64>::empty()));
+    }
+    assert forall|k: K| k != key && !named_by(pre.defs(), k) && #[trigger] fin.has(k) implies fin.val(k) == pre.val(k) by {
+        assert(fin.has(k) == (mid.has(k) && fin.ec(k) != SMap::<A, u64>::empty()));
+        assert(mid.has(k) == pre.has(k));
+        assert(fin.val(k) == mid.val(k));
+    }
+    assert(fin.cl() == pre.cl().insert(d.actor, d.counter));
+    assert forall|c: VClock<A>| #![trigger fin.defs().contains_key(c)] fin.defs().contains_key(c) <==> (pre.defs().contains_key(c) && !vle(c@, fin.cl())) by {}
+    assert forall|c: VClock<A>| #![trigger fin.defs()[c]] fin.defs().contains_key(c) implies fin.defs()[c]@ == pre.defs()[c]@ by {}
+    let o = Op::<K, V, A>::Up { dot: d, key, op };
+    assert(o->op == op && o->key == key && o->dot == d);
+    if !named_by(pre.defs(), key) && fin.has(key) {
+        assert(fin.val(key) == mid.val(key));
+        let v0 = e0.vl();
+        assert((if pre.has(key) { v0 == pre.val(key) } else { V::default.ensures((), v0) }) && V::cm_post(&v0, &o->op, &fin.val(key)));
+    }
+    assert(o is Up && cnt(pre.cl(), o->dot.actor) < o->dot.counter);
+    assert(apply_post_map(pre, o, fin));
 }
 
 spec fn kcovered_upto<K: Ord, A: Ord>(vs: Seq<(VClock<A>, BTreeSet<K>)>, idx: int, m: K, a: A, n: u64) -> bool {
